@@ -27,10 +27,30 @@ type afTxn struct {
 	started bool
 }
 
+// afResponse builds the backend's answer to the request it observed.
+func afResponse(req *sip.Msg, status int, id, rid string) *sip.Msg {
+	resp := &sip.Msg{Start: fmt.Sprintf("SIP/2.0 %d Answer", status)}
+	for _, h := range req.Headers {
+		switch sip.Canon(h.Name) {
+		case "via", "from", "call-id", "cseq":
+			resp.Headers = append(resp.Headers, h)
+		case "to":
+			v := h.Value
+			if status > 100 {
+				v += ";tag=b" + id
+			}
+			resp.Headers = append(resp.Headers, sip.Header{Name: h.Name, Value: v})
+		}
+	}
+	resp.Headers = append(resp.Headers, sip.Header{Name: "X-Vf", Value: rid}, sip.Header{Name: "Content-Length", Value: "0"})
+	return resp
+}
+
 func scenarioAffinity() int {
 	run := ev.New("C12", "exploration",
-		"2-8 simultaneous client connections to one listener, all from one address, with equal or different Via sent-by values (literals and host-table names) and pairwise distinct branches, 1-20 transactions each; "+
+		"2-8 simultaneous client connections to one listener, all from one address, with equal or different Via sent-by values (literals and host-table names) and pairwise distinct branches (some a prefix of another, some equal up to letter case), 1-20 transactions each; "+
 			"schedule = PRNG-chosen linear extension of {request < 1xx* < final} per transaction executed step by step (each request awaited at the backend), responses delayed and reordered across connections; "+
+			"six further calls ring from the start of the run until at least 62 s later and are answered then; "+
 			"oracle = driver's transaction->connection map; the driver also listens on every sent-by address it advertises so that a proxy that dials instead of reusing is seen; distinct = distinct schedules (hash of the event order)")
 	w, err := wire.NewWorld(*flagBin, *flagDir, wire.Opts{Services: 8, TCPBackend: true})
 	if err != nil {
@@ -75,6 +95,83 @@ func scenarioAffinity() int {
 		nsched = ev.Pick(150, 1200)
 	}
 	respOK, seq := 0, 0
+	// calls that ring for more than a minute: the request goes out now, a 180 comes back now,
+	// the final answer only after the whole run and not before 62 s have passed (whatever the
+	// proxy does periodically with the connections it remembers happens in between)
+	started := time.Now()
+	type longCall struct {
+		t    *afTxn
+		svc  int
+		conn *wire.TCPConn
+	}
+	var long []*longCall
+	sendBack := func(svc int, t *afTxn, status int, rid string) {
+		sv := w.Svcs[svc]
+		resp := afResponse(t.reqObs.Msg, status, t.id, rid)
+		if t.reqObs.Proto == "udp" {
+			for _, e := range sv.BeUDP {
+				if e.Name == t.reqObs.Ep {
+					e.Send(fmt.Sprintf("%s:%d", sv.IP, sv.UDP), resp.Bytes(), rid)
+				}
+			}
+		} else {
+			for _, l := range sv.BeTCP {
+				if c := l.ConnByID(t.reqObs.Conn); c != nil {
+					c.Send(resp.Bytes(), rid)
+				}
+			}
+		}
+	}
+	judgeLong := func(lc *longCall, rid string, status int, phase string, acc0 int) bool {
+		w.Net.WaitCase(rid, func(o []*wire.Obs) bool { return len(o) >= 1 }, w.BarrierWait)
+		w.Net.Drain()
+		obs := w.Net.ForCase(rid)
+		var where []string
+		for _, o := range obs {
+			where = append(where, fmt.Sprintf("%s conn#%d %s<-%s", o.Ep, o.Conn, o.Local, o.Peer))
+		}
+		if len(obs) != 1 || obs[0].Proto != "tcp" || obs[0].Conn != lc.conn.ID || accepted() != acc0 {
+			run.Violation("response of a call that rang for a long time was not written to the connection that carried its request", map[string]any{"service": lc.svc, "no_received": w.Svcs[lc.svc].NoRecv, "transaction": lc.t.id, "sent_by": lc.t.sentBy, "status": status, "phase": phase,
+				"seconds_since_start": int(time.Since(started).Seconds()), "request_connection": fmt.Sprintf("conn#%d %s", lc.conn.ID, lc.conn.Local), "response_seen_at": where, "new_inbound_connections_at_driver": accepted() - acc0})
+			return false
+		}
+		respOK++
+		return true
+	}
+	for k := 0; k < 6; k++ {
+		sidx := k % len(w.Svcs)
+		sv := w.Svcs[sidx]
+		ua := w.UAs[k%len(w.UAs)]
+		cn, err := w.Net.Dial(fmt.Sprintf("ua%d/long%d", ua.Index, k), ua.IP+":0", fmt.Sprintf("%s:%d", sv.IP, sv.TCP))
+		if err != nil {
+			continue
+		}
+		sb := []string{ua.IP + ":5060", ua.Name + ":5060", ua.IP, cn.Local, ua.IP + ":5099", ua.Name}[k%6]
+		t := &afTxn{id: fmt.Sprintf("L%d", k), conn: -1, sentBy: sb, method: "INVITE"}
+		m := wire.StdRequest(t.id, t.method, fmt.Sprintf("sip:svc%d.verif.test", sidx), "tcp", "placeholder", 0)
+		via := fmt.Sprintf("SIP/2.0/TCP %s;branch=z9hG4bKvf%s", sb, t.id)
+		if k%2 == 1 {
+			via += ";rport"
+		}
+		wire.SetHeader(m, "Via", via)
+		if sv.HasDef {
+			wire.SetHeader(m, "To", "<tel:+15550112>")
+		}
+		cn.Send(m.Bytes(), t.id)
+		obs, seen := w.Net.WaitCase(t.id, func(o []*wire.Obs) bool { return len(o) >= 1 }, w.BarrierWait)
+		if !seen || !sv.BackendEndpointNames()[obs[0].Ep] || obs[0].Msg == nil {
+			run.Inconclusive(1)
+			cn.Close(false)
+			continue
+		}
+		t.reqObs = obs[0]
+		lc := &longCall{t: t, svc: sidx, conn: cn}
+		acc0 := accepted()
+		sendBack(sidx, t, 180, t.id+"r180a")
+		if judgeLong(lc, t.id+"r180a", 180, "ringing, at once", acc0) {
+			long = append(long, lc)
+		}
+	}
 	for s := 0; s < nsched && run.Violations() <= 6; s++ {
 		if h := w.Health(); h != "" {
 			run.Violation("proxy died during the run (belongs to C08; the run cannot continue)", map[string]any{"health": h})
@@ -124,6 +221,12 @@ func scenarioAffinity() int {
 						oc = g.R.Intn(len(conns))
 					}
 					txns = append(txns, &afTxn{id: tx.id + "x", conn: oc, sentBy: sb, method: tx.method, nprov: 1 + g.R.Intn(2)})
+				}
+				if g.R.Intn(5) == 0 {
+					// two more whose branches differ from each other only in the case of one letter
+					oc := g.R.Intn(len(conns))
+					txns = append(txns, &afTxn{id: tx.id + "k", conn: c, sentBy: sb, method: tx.method, nprov: 1 + g.R.Intn(2)},
+						&afTxn{id: tx.id + "K", conn: oc, sentBy: sb, method: tx.method, nprov: 1 + g.R.Intn(2)})
 				}
 			}
 		}
@@ -176,20 +279,7 @@ func scenarioAffinity() int {
 				} else {
 					rid += fmt.Sprint(t.nprov)
 				}
-				resp := &sip.Msg{Start: fmt.Sprintf("SIP/2.0 %d Answer", status)}
-				for _, h := range t.reqObs.Msg.Headers {
-					switch sip.Canon(h.Name) {
-					case "via", "from", "call-id", "cseq":
-						resp.Headers = append(resp.Headers, h)
-					case "to":
-						v := h.Value
-						if status > 100 {
-							v += ";tag=b" + t.id
-						}
-						resp.Headers = append(resp.Headers, sip.Header{Name: h.Name, Value: v})
-					}
-				}
-				resp.Headers = append(resp.Headers, sip.Header{Name: "X-Vf", Value: rid}, sip.Header{Name: "Content-Length", Value: "0"})
+				resp := afResponse(t.reqObs.Msg, status, t.id, rid)
 				if t.reqObs.Proto == "udp" {
 					for k, e := range sv.BeUDP {
 						if e.Name == t.reqObs.Ep {
@@ -250,6 +340,29 @@ func scenarioAffinity() int {
 		}
 		w.Net.Trim()
 		time.Sleep(time.Millisecond)
+	}
+	// the long calls are answered now
+	if run.Violations() <= 6 && len(long) > 0 {
+		if d := 62*time.Second - time.Since(started); d > 0 {
+			time.Sleep(d)
+		}
+		longOK := 0
+		for _, lc := range long {
+			acc0 := accepted()
+			sendBack(lc.svc, lc.t, 183, lc.t.id+"r183b")
+			if !judgeLong(lc, lc.t.id+"r183b", 183, "still ringing after the wait", acc0) {
+				continue
+			}
+			acc0 = accepted()
+			sendBack(lc.svc, lc.t, 200, lc.t.id+"r200f")
+			if judgeLong(lc, lc.t.id+"r200f", 200, "answered after the wait", acc0) {
+				longOK++
+				run.Eval(fmt.Sprintf("long-call|svc%d|%s", lc.svc, lc.t.sentBy))
+			}
+			lc.conn.Close(false)
+		}
+		run.Observe("calls_answered_after_ringing_for_more_than_a_minute", longOK)
+		run.Observe("seconds_the_long_calls_were_pending", int(time.Since(started).Seconds()))
 	}
 	run.Observe("responses_on_the_right_connection", respOK)
 	run.Observe("schedules", nsched)
